@@ -15,6 +15,16 @@ CHECKS = {
                      "emit_cmd_stream_header are translated from /repo on every run and proved equal to the model; "
                      "create_driver_payload/build_config_word are tied by a byte-for-byte correspondence run.",
                 note=TB + "; struct.pack/ctypes modelled; accelerator facts in Driver.spec_table"),
+    "C02": dict(cat="translation_validation", ref="7/C02", technique="Coq-proved validator (check_bounds_sound) run on decoded command streams of real compilations",
+                text="Theorem check_bounds_sound (Coq): if the extracted checker accepts a decoded stream, every element address of "
+                     "IFM/IFM2/OFM (through tiles, strides, NHCWB16 bricks) and every weight/scale/LUT/SHRAM/DMA range of every "
+                     "operation lies inside the region extents published in the output file, and nothing writes the constants "
+                     "region. The checker is run on every command stream of generated networks compiled across accelerators, "
+                     "memory modes, allocators and arena sizes; the Dedicated-SRAM clause compares the published fast-scratch "
+                     "extent with the configured arena cache size. Each verdict is a proof for that compilation; the set of "
+                     "compilations is sampled.",
+                note=TB + "; coq/hw/Npu.v hardware footprint model is trusted (modelled from Vela's address code and register "
+                     "definitions); tools/tflsum.py reads the extents from the output file"),
     "C13": dict(cat="other", ref="7/C13", technique="Coq proofs of exception-freedom for modelled arithmetic cores + crash sweep of generated models (exploration)",
                 text="Partial. Whole-compiler totality over all models is not a theorem. Proved in Coq: the arithmetic sites that "
                      "are modelled cannot raise (e.g. the scheduler's slack computation with the array dtype introspected from the "
